@@ -45,6 +45,15 @@ func KnobsFor(seed uint64, cfgIdx int, max Knobs) Knobs {
 	if tier >= 2 {
 		add(AllKnobs)
 	}
+	// ExtraKnobs (only when max asks for them: "all2"): half of the medium and full configurations.  The
+	// draw comes last, so the knob sets chosen under the frozen AllKnobs are what they always were.
+	if tier >= 1 {
+		for _, n := range ExtraKnobs {
+			if max[n] && r.Chance(1, 2) {
+				k[n] = true
+			}
+		}
+	}
 	return k
 }
 
@@ -240,6 +249,11 @@ type Features struct {
 	// IfaceRequires: a field selected ON an interface has @requires on some implementer;
 	// IfaceObjList: a list-of-objects field is selected ON an interface
 	IfaceRequires, IfaceObjList bool
+	// CovField: an abstract-typed field is selected on an abstract parent or below a type condition of one;
+	// CovNarrowed: ... and some implementer narrows that field covariantly;
+	// CovSameKey: a response position below such a field is selected under >= 2 different combinations of
+	// outer and inner type conditions (see CondCombos)
+	CovField, CovNarrowed, CovSameKey bool
 }
 
 func (c *Case) Features() Features {
@@ -319,16 +333,17 @@ func (c *Case) Features() Features {
 		}
 	}
 	walk(c.Cfg.Super.Query, c.Op.Sels, 0)
+	f.CovField, f.CovNarrowed, f.CovSameKey = c.covFeatures()
 	return f
 }
 
 // Summary is the one-line case description used in cases files and evidence samples.
 func (c *Case) Summary(v *Verdict) string {
 	f := c.Features()
-	return fmt.Sprintf("(sum (subgraphs %d) (types %d) (fetches %d) (entityfetches %d) (abstract %s) (requires %s) (provides %s) (vars %s) (frags %s) (dirs %s) (aliases %s) (ifacerequires %s) (ifaceobjlist %s))",
+	return fmt.Sprintf("(sum (subgraphs %d) (types %d) (fetches %d) (entityfetches %d) (abstract %s) (requires %s) (provides %s) (vars %s) (frags %s) (dirs %s) (aliases %s) (ifacerequires %s) (ifaceobjlist %s) (covfield %s) (covnarrowed %s) (covsamekey %s))",
 		f.Subgraphs, f.Types, v.Fetches, v.EntityFetches, common.B(f.Abstract), common.B(f.Requires), common.B(f.Provides),
 		common.B(f.Variables), common.B(f.Fragments), common.B(f.Directives), common.B(f.Aliases),
-		common.B(f.IfaceRequires), common.B(f.IfaceObjList))
+		common.B(f.IfaceRequires), common.B(f.IfaceObjList), common.B(f.CovField), common.B(f.CovNarrowed), common.B(f.CovSameKey))
 }
 
 func joinTrunc(xs []string, n int) string {
